@@ -119,3 +119,90 @@ func MutateLayout(src []byte, r *vh.Rand) []byte {
 	b.WriteString(string(src[prev:]))
 	return []byte(b.String())
 }
+
+func gluedGap(gap string, p, t Tok) bool {
+	// never separate an identifier from a raw string (domain text literal), a number from its
+	// unit, or `$` from what follows
+	return gap == "" && (t.Tok == token.STRING || t.Tok == token.UNIT || p.Tok == token.ENV ||
+		(t.Tok == token.LBRACE && p.Tok == token.ENV))
+}
+
+// MutateLayoutDense is the deterministic, exhaustive counterpart of MutateLayout:
+//
+//	mode 0: a blank before EVERY token that follows another token on its line
+//	mode 1: a /*c*/ comment (and blanks) before every such token
+//	mode 2: a blank and a comment before every closing token  ) ] }  and every , ; :
+func MutateLayoutDense(src []byte, mode int) []byte {
+	toks, nerr := Scan(src, true)
+	if nerr != 0 || len(toks) == 0 {
+		return src
+	}
+	var b strings.Builder
+	prev := 0
+	for i, t := range toks {
+		gap := string(src[prev:t.Off])
+		b.WriteString(gap)
+		if i > 0 && !strings.Contains(gap, "\n") && !gluedGap(gap, toks[i-1], t) && t.Tok != token.COMMENT && toks[i-1].Tok != token.COMMENT {
+			switch mode {
+			case 0:
+				b.WriteString(" ")
+			case 1:
+				b.WriteString(" /*c*/ ")
+			default:
+				switch t.Tok {
+				case token.RPAREN, token.RBRACK, token.RBRACE, token.COMMA, token.SEMICOLON, token.COLON:
+					b.WriteString(" /*c*/ ")
+				}
+			}
+		}
+		b.WriteString(string(src[t.Off:t.End]))
+		prev = t.End
+	}
+	b.WriteString(string(src[prev:]))
+	return []byte(b.String())
+}
+
+var mutTokPool = []string{"(", ")", ",", ":", "=>", "...", "in", "for", "[", "]", "{", "}", "!", "?", "<-", ";", "=", ":=", "$", "range", "if", "x", "1", "()", "(a, b)", "func", "chan"}
+
+// MutateTokens makes a token-level mutant of a valid source: 1-2 of delete / duplicate / swap
+// with the neighbour / replace by or insert a token from a small pool.  Most mutants are
+// rejected by the parser; the ones it accepts are near-valid inputs nobody wrote by hand.
+func MutateTokens(src []byte, r *vh.Rand) []byte {
+	toks, nerr := Scan(src, false)
+	if nerr != 0 || len(toks) < 2 {
+		return src
+	}
+	texts := make([]string, len(toks))
+	gaps := make([]string, len(toks)+1)
+	prev := 0
+	for i, t := range toks {
+		gaps[i] = string(src[prev:t.Off])
+		texts[i] = string(src[t.Off:t.End])
+		prev = t.End
+	}
+	gaps[len(toks)] = string(src[prev:])
+	for k, n := 0, 1+r.Intn(2); k < n; k++ {
+		i := r.Intn(len(texts))
+		switch r.Intn(5) {
+		case 0:
+			texts[i] = ""
+		case 1:
+			texts[i] = texts[i] + " " + texts[i]
+		case 2:
+			if i+1 < len(texts) {
+				texts[i], texts[i+1] = texts[i+1], texts[i]
+			}
+		case 3:
+			texts[i] = mutTokPool[r.Intn(len(mutTokPool))]
+		default:
+			texts[i] = mutTokPool[r.Intn(len(mutTokPool))] + " " + texts[i]
+		}
+	}
+	var b strings.Builder
+	for i := range texts {
+		b.WriteString(gaps[i])
+		b.WriteString(texts[i])
+	}
+	b.WriteString(gaps[len(texts)])
+	return []byte(b.String())
+}
